@@ -123,6 +123,24 @@ def execute(ctx, case):
                                      **derive.call_form(case.get("_seed", 0), dict(score_class=sc, equal_class=ec, pos_label=1)))  # documented defaults may be left out
         C(fl == gs and list(fl.groups) == sorted(set(pg) | set(ng)), "from_labels differs from the constructor", "gs-from-labels")
 
+    def op_eq():
+        # == is what callers (and several relations here) use to compare objects: equal to a reconstruction from the same rows, unequal as soon
+        # as one group label, one score or one configuration field differs
+        same = GroupScores(pos.copy(), neg.copy(), pos_groups=pg.copy(), neg_groups=ng.copy(), score_class=sc, equal_class=ec)
+        C(bool(gs == same) and bool(same == gs), "an object does not compare equal to a reconstruction from the same rows", "gs-eq-same")
+        variants = {}
+        for nm_, arr_ in (("pos_groups", pg), ("neg_groups", ng)):
+            if len(arr_):
+                a2 = arr_.copy()
+                j_ = int(rs.integers(0, len(a2)))
+                other_labels = [g_ for g_ in (set(pg) | set(ng) | {"zz-other"}) if g_ != a2[j_]]
+                a2[j_] = sorted(other_labels)[0]
+                variants[nm_] = GroupScores(pos, neg, pos_groups=a2 if nm_ == "pos_groups" else pg, neg_groups=a2 if nm_ == "neg_groups" else ng, score_class=sc, equal_class=ec)
+        variants["equal_class"] = GroupScores(pos, neg, pos_groups=pg, neg_groups=ng, score_class=sc, equal_class="neg" if ec == "pos" else "pos")
+        variants["score_class"] = GroupScores(pos, neg, pos_groups=pg, neg_groups=ng, score_class="neg" if sc == "pos" else "pos", equal_class=ec)
+        for nm_, o_ in variants.items():
+            C(not bool(gs == o_) and not bool(o_ == gs), "objects differing in one field compare equal", "gs-eq-differs", differs_in=nm_)
+
     def op_group_cm(tag="", ths=ths, sample=None):
         gcm = gs.group_cm(ths).matrix
         idx = np.arange(len(ths)) if sample is None else sample  # long vectors: recount at a sample of positions
@@ -210,7 +228,7 @@ def execute(ctx, case):
                     C(len(b.pos) == len(pos) and len(b.neg) == len(neg), "by_label: class sizes not preserved", "gs-bs-label")
         return run
 
-    ops = [op_swap, op_from_labels, op_group_cm, op_groupwise, op_getitem, op_getitem] + ([op_group_cm_near] if case.get("_seed", 0) % 3 == 0 else []) + ([op_group_cm_layout] if case.get("_seed", 0) % 3 == 1 else [])
+    ops = [op_swap, op_from_labels, op_group_cm, op_groupwise, op_getitem, op_getitem, op_eq] + ([op_group_cm_near] if case.get("_seed", 0) % 3 == 0 else []) + ([op_group_cm_layout] if case.get("_seed", 0) % 3 == 1 else [])
     for meth in ("replacement", "single_pass", "dynamic"):
         for strat in (None, "by_label", "by_group"):
             if strat == "by_group" and not strata_ok and meth != "replacement":
